@@ -154,7 +154,9 @@ def z_sticky_replay(model):
 
 
 ALT = ['absent', 'dir-populated', 'file']
-CMDS = ['put', 'put-dir', 'list', 'restore', 'restore-path', 'empty', 'empty-days', 'empty-dry', 'rm-star', 'rm-exact', 'list-trash-dirs']
+CMDS = ['put', 'put-dir', 'list', 'restore', 'restore-path', 'empty', 'empty-days', 'empty-dry', 'rm-star', 'rm-exact', 'list-trash-dirs',
+        'list-trash-dir-names-the-volume', 'empty-trash-dir-names-the-volume', 'list-trash-dir-names-the-volume-slash']
+NCMD8 = len(CMDS)
 
 
 def _case(top, alt, cmd, root=0):
@@ -188,6 +190,10 @@ def _case(top, alt, cmd, root=0):
             'empty': C('empty', [], e, cwd='/v/d'), 'empty-days': C('empty', ['1'], e, now='2020-06-01T00:00:00', cwd='/v/d'),
             'empty-dry': C('empty', ['--dry-run'], e, cwd='/v/d'),
             'rm-star': C('rm', ['*'], e, cwd='/v/d'), 'rm-exact': C('rm', ['secret'], e, cwd='/v/d'),
+            # (--trash-dir given the mount point itself: whatever that is taken to mean, not a licence to use .Trash/$uid)
+            'list-trash-dir-names-the-volume': C('list', ['--trash-dir', '/v'], e, cwd='/v/d'),
+            'list-trash-dir-names-the-volume-slash': C('list', ['--trash-dir', '/v/'], e, cwd='/v/d'),
+            'empty-trash-dir-names-the-volume': C('empty', ['--trash-dir', '/v'], e, cwd='/v/d'),
         }[c]
         m, res = scen.run_model(world, [{'snap': '/'}, step, {'snap': '/'}])
         before, r, after = res
@@ -200,7 +206,7 @@ def _case(top, alt, cmd, root=0):
                 return rt.fail('C08:insecure-dir-modified:' + label, 'contents of %s changed: %r' % (uid_dir, scen.delta(scen.sub(before, uid_dir), scen.sub(after, uid_dir))))
             text = r['out'] if c != 'list' else r['out']
             for mark in ('secret', uid_dir + '/files', '/v/.Trash/1000/files'):
-                if c in ('list', 'restore', 'restore-path', 'empty-dry') and mark in r['out']:
+                if (c in ('list', 'restore', 'restore-path', 'empty-dry') or c.startswith('list-trash-dir-names')) and mark in r['out']:
                     return rt.fail('C08:insecure-dir-read:' + label, 'stdout mentions %r: %r' % (mark, r['out'][-300:]))
             if c == 'list-trash-dirs' and '/v/.Trash/1000' in [ln.strip() for ln in K.lines(r['out'])]:
                 return rt.fail('C08:insecure-dir-listed-as-usable:' + label, r['out'])
@@ -476,10 +482,10 @@ def w_midrun(k: int, action: int, interactive: bool) -> str:
 
 def w_main(top: int, alt: int, cmd: int, root: int) -> str:
     """
-    pre: 0 <= top < 9 and 0 <= alt < 3 and 0 <= cmd < 11 and 0 <= root < 2
+    pre: 0 <= top < 9 and 0 <= alt < 3 and 0 <= cmd < NCMD8 and 0 <= root < 2
     post: _ == ''
     """
-    return _case(rt.sel(top, 9), rt.sel(alt, 3), rt.sel(cmd, 11), rt.sel(root, 2))
+    return _case(rt.sel(top, 9), rt.sel(alt, 3), rt.sel(cmd, NCMD8), rt.sel(root, 2))
 
 
 def obligations(tier):
@@ -492,7 +498,7 @@ def obligations(tier):
            stubs=['os.stat(path).st_mode -> bit-vector variable'], bounds='every st_mode of a directory (all 4096 permission values)'),
         CH('W_state_x_alt_x_cmd', MOD, 'w_main', timeout=600, engine='W', regime='selector',
            encodes=K.PUT_FUNCS + K.LIST_FUNCS + K.RESTORE_FUNCS + K.EMPTY_FUNCS + K.RM_FUNCS, stubs=K.STUBS,
-           bounds='9 .Trash states (incl. setgid/setuid without sticky) x 3 .Trash-uid states x 11 command/argument combinations (all five commands) x volume root plain / sticky'),
+           bounds='9 .Trash states (incl. setgid/setuid without sticky) x 3 .Trash-uid states x 14 command/argument combinations (all five commands, incl. --trash-dir naming the mount point) x volume root plain / sticky'),
         CH('W_two_volumes_link_to_valid_dir', MOD, 'w_twovol', timeout=300, engine='W', regime='selector',
            encodes=K.PUT_FUNCS + K.LIST_FUNCS + K.RESTORE_FUNCS + K.EMPTY_FUNCS + K.RM_FUNCS, stubs=K.STUBS,
            bounds='two volumes in one run, one with a valid sticky .Trash, the other with .Trash a symbolic link (absolute | relative) resolving to it; '
